@@ -1,3 +1,4 @@
+import AquaVerif.Proofs.Session
 import AquaVerif.Model.Effects
 import AquaVerif.Generated.EffectTable
 /-
@@ -170,5 +171,31 @@ theorem step_writes_to_user_objects :
     ∀ e ∈ effectTable, e.region = .step → e.cls ∈ userFacing →
       e.cls = .userCo2 ∧ e.path = "co2_concentration.current_concentration" :=
   all_of_check step_user_check
+
+/-! ### the public API as a state machine (`Model/Session.lean`, replayed by the `session` tie on real `AquaCropModel` objects) -/
+
+section api
+open Aqua.Clock Aqua.Session
+/-- **API level, modulo the opaque `_initialize`.** After *any* session on the object (including
+`process_outputs`, calls that raised, finished or unfinished runs),
+`run_model(till_termination=True, initialize_model=True)` and whatever follows behave on the used
+object exactly as on a new one (observations and state). -/
+theorem api_rerun_equals_first {c : Cfg} (hw : WF c) (ev : Ev) (pre rest : List Op) (k : Int)
+    (po : Bool) :
+    runOps c ev (.run k true true po :: rest) (session c ev pre).1 =
+      session c ev (.run k true true po :: rest) :=
+  rerun_equals_first hw ev pre rest k po
+
+/-- any arguments, any configuration: same observation, and the same state when the call returns -/
+theorem api_reinit_run_equals_first {c : Cfg} {ev : Ev} (k : Int) (till po : Bool) (s : SSt) :
+    (run c ev k till true po s).2 = (run c ev k till true po fresh).2 ∧
+    ((run c ev k till true po s).2 = .retTrue →
+      (run c ev k till true po s).1 = (run c ev k till true po fresh).1) :=
+  rerun_equals_first_general k till po s
+
+/-- regression for repo commit 4f049e5: the re-run after `process_outputs=True` succeeds -/
+example : (session small noEv [.run 1 false true true, .run 0 true true false]).2 =
+    [.retTrue, .retTrue] := by rfl
+end api
 
 end Aqua.C11
